@@ -116,6 +116,8 @@ class Wf:
             cons.append(z3.Implies(bz(self.t("dynamic_dep").rows[d].present), bz(r.present)))
         for name in ("nglob", "env_var"):
             for r in self.t(name).rows:
+                if isinstance(r.present, bool):
+                    continue  # pinned content
                 cons.append(bz(r.present) == False)  # noqa: E712
         res_names = [pool.atom("p"), pool.atom("q")]
         for name in ("step_resource", "available_resource"):
